@@ -580,6 +580,11 @@ func finalizeOutboundListeners(lb *ListenerBuilder, listenerMap map[listenerKey]
 		l := buildListenerFromEntry(lb, le, fallthroughNetworkFilters)
 		listeners = append(listeners, l)
 	}
+	// The entries come out of a map; listener names (bind_port) are unique, so sorting by name
+	// gives the same order in every generation.
+	sort.Slice(listeners, func(i, j int) bool {
+		return listeners[i].Name < listeners[j].Name
+	})
 	return listeners
 }
 
